@@ -50,3 +50,26 @@ Definition repaired_generator : generator_cfg := {| ug_single_arg := true; ug_ne
 Definition nested_generator : generator_cfg := {| ug_single_arg := true; ug_nested := true; ug_updated_parts := false |}.
 (** `return updated_node` and the generator built from the updated comprehension *)
 Definition nested_updated_generator : generator_cfg := {| ug_single_arg := true; ug_nested := true; ug_updated_parts := true |}.
+
+(** fix_hasattr_call.on_result_found *)
+Record hasattr_cfg := {
+  ha_two_args : bool      (* true: only hasattr calls with exactly two arguments are rewritten (repaired);
+                             false: whatever semgrep's `hasattr(..., "__call__")` matched, keeping the first argument (pinned) *)
+}.
+Definition pinned_hasattr : hasattr_cfg := {| ha_two_args := false |}.
+Definition repaired_hasattr : hasattr_cfg := {| ha_two_args := true |}.
+
+(** str_concat_in_seq_literal._process_elements *)
+Record str_concat_cfg := {
+  sc_updated : bool       (* true: the elements of the UPDATED node are processed (rewrites of nested displays are kept; repaired);
+                             false: those of the original node (pinned) *)
+}.
+Definition pinned_str_concat : str_concat_cfg := {| sc_updated := false |}.
+Definition repaired_str_concat : str_concat_cfg := {| sc_updated := true |}.
+
+(** fix_empty_sequence_comparison.leave_Comparison *)
+Record empty_seq_cfg := {
+  es_parens : bool        (* true: the new `not x` keeps the parentheses of the comparison it replaces (repaired) *)
+}.
+Definition pinned_empty_seq : empty_seq_cfg := {| es_parens := false |}.
+Definition repaired_empty_seq : empty_seq_cfg := {| es_parens := true |}.
